@@ -81,6 +81,9 @@ func runC17(c *Ctx) {
 	c.Rule("C17.C", "401 and nothing else on a failed check; no answer before the check", 6)
 	c.Rule("C17.D", "admin gate", 5)
 	c.Rule("C17.E", "end users only reach their own or shared backends", 7)
+	c.Rule("C17.W", "who-may-write registrations: backend definitions are written by AddBackend only (an agent-side bookkeeping path that re-writes the record it read can restore a registration an administrator has just changed); a response is stored only for a request that was found", 2)
+	ruleBackendDefinitionWriters(c, p, "C17.W")
+	c.Borrow(runC19, "C19.I", "C17.W", func(k string) bool { return k == "respond:stored-only-for-matching-request" })
 	c.Rule("C17.S", "sibling agreement of the two Store implementations; injective keys", 18)
 	c.Rule("C17.R", "routing of service names", 4)
 	c.Rule("C17.K", "the GET response cache cannot serve one user another user's answer: injective key of (user e-mail, URL), components verbatim (= C01.C, C19.R)", 6)
@@ -640,4 +643,49 @@ func ruleStoreKeys(c *Ctx, p *Prog, rule string) {
 		c.Check(rule, "key-injective:"+kf.fn, p, f.Pos(), ok, "the key is fmt.Sprintf with every component quoted (%q): distinct (backend ID, request ID) pairs give distinct keys", "key constructor "+kf.fn+": "+why+": components containing the delimiter make different (backend ID, request ID) pairs collide, so one backend's agent can read or answer another backend's requests")
 	}
 	ruleCacheKeysByUse(c, p, rule)
+}
+
+// ruleBackendDefinitionWriters: a backend definition (who may act as the backend, whose
+// requests it gets) is put into the datastore by AddBackend and by nothing else. A read-modify-
+// write of the record on a path that agents drive (a last-used stamp kept on the record, say)
+// runs outside any transaction: it can put back the definition it read after an administrator
+// replaced or deleted it.
+func ruleBackendDefinitionWriters(c *Ctx, p *Prog, rule string) {
+	bad := ""
+	n := 0
+	for _, fn := range p.AllFuncsIn("app/store") {
+		EachInstrRaw(fn, func(i ssa.Instruction) {
+			cc := CallOf(i)
+			if cc == nil {
+				return
+			}
+			name := CalleeName(cc)
+			if name != "google.golang.org/appengine/v2/datastore.Put" && name != "google.golang.org/appengine/v2/datastore.PutMulti" {
+				return
+			}
+			n++
+			a := PArgs(cc)
+			src := a[len(a)-1]
+			if mi, isMI := src.(*ssa.MakeInterface); isMI {
+				src = mi.X
+			}
+			t := src.Type()
+			for k := 0; k < 3; k++ {
+				switch u := t.Underlying().(type) {
+				case *types.Pointer:
+					t = u.Elem()
+				case *types.Slice:
+					t = u.Elem()
+				}
+			}
+			if NamedTypeRel(t) != "app/types.Backend" {
+				return
+			}
+			top := TopFunc(fn)
+			if FuncName(top) != "app/store.(*persistentStore).AddBackend" && !(IsNewHelper(top) && helperCalledFrom(top, p.Func("app/store.(*persistentStore).AddBackend"))) {
+				bad = FuncName(fn) + " at " + p.Pos(i.Pos())
+			}
+		})
+	}
+	c.Check(rule, "store:backend-definitions-written-by-AddBackend-only", p, 0, bad == "" && n > 0, fmt.Sprintf("%d datastore writes in app/store: backend definitions are put by AddBackend only", n), "a backend definition is also written in "+bad+": a write of the record read earlier (outside a transaction) restores the old BackendUser/EndUser/PathPrefixes after an administrator changed or deleted the registration — the old agent stays accepted and the old user keeps being routed to the backend")
 }
